@@ -3,7 +3,8 @@
 EXTENDS Header
 MCTags       == {"a", "b"}
 MCShapes     == {"none", "empty", "line1", "line3", "groups", "block1", "blockN", "mixed", "lead",
-                 "apache", "bsdlist", "numbered", "heading", "indented", "dashlist", "blocklist", "trailsp"}
+                 "apache", "bsdlist", "numbered", "heading", "indented", "dashlist", "blocklist", "trailsp",
+                 "k8sblock", "blockslash", "blockbuild", "blocks2", "dneline", "dneblock", "othermarker", "nearmiss"}
 MCFormatters == {"goimports", "gofmt", "noop"}
 MCTemplates  == {"testify", "matryer"}
 MCPlacements == {"separate", "inpkg"}
